@@ -94,7 +94,7 @@ spec("C03", "Function / method round trip",
      "consumed; (ALIGN-emit) defaults/kw_defaults are built one per argument from the same sequence (symbolic length identities over all paths); (ALIGN-parse) "
      "signature defaults are padded to exactly the argument count and keep their positions; (TABLE-kind) self/cls/static and the **kwargs suffix agree between "
      "emitter and recognisers; (NULL-1/2) no definite None dereference on the return-only / prose-less return paths. (DET-3, scoped) no function on this property's code path writes state that outlives the call (module globals/objects, function or class attributes, mutated mutable defaults, memoised mutable results): the conversion is not history-dependent.",
-     floors={"ORDER": 2, "ALIGN-emit": 3, "ALIGN-parse": 1, "TABLE-kind": 3, "NULL-1": 1},
+     floors={"ORDER": 2, "ALIGN-emit": 2, "ALIGN-parse": 1, "TABLE-kind": 3, "NULL-1": 1},
      technique="linear-form length algebra evaluated path-sensitively; structural sequence analysis; constant folding; None-return summaries",
      not_decided="equality of types/prose/defaults, return interpolation text, indent levels")
 
@@ -115,7 +115,7 @@ spec("C06", "Emitted code is valid Python",
      "Necessary conditions, for all inputs: (ALIGN-emit) every ast.arguments(...) the package builds satisfies Python's length invariants and aligns defaults with "
      "arguments as symbolic identities; (ORDER) names/order/count of attributes, arguments and options are those of the IR by construction; (CTOR) every ast node "
      "construction supplies the mandatory _fields of the running interpreter. (DET-3, scoped) no function on this property's code path writes state that outlives the call (module globals/objects, function or class attributes, mutated mutable defaults, memoised mutable results): the conversion is not history-dependent.",
-     floors={"ALIGN-emit": 3, "ORDER": 4, "CTOR": 1},
+     floors={"ALIGN-emit": 2, "ORDER": 4, "CTOR": 1},
      technique="linear-form length algebra; structural sequence analysis; constructor-call conformance against ast.<Node>._fields",
      not_decided="behaviour of the executed artefacts, identifier validity of type strings, values of defaults")
 
